@@ -294,6 +294,21 @@ class Project:
                 self.stamp(rel, tick)
             self.tick = max(self.tick, tick or 0)
 
+    def link_out(self, rel, dangling=False):
+        """Turn the file `rel` into a symbolic link to a copy kept in _store/ (same content and modification time;
+        the link itself is dated long ago).  dangling: `rel` does not exist, the link points to a file yet to be made."""
+        p = self.path(rel)
+        store = self.path(os.path.join("_store", rel.replace("/", "__")))
+        os.makedirs(os.path.dirname(store), exist_ok=True)
+        os.makedirs(os.path.dirname(p), exist_ok=True)
+        if not dangling:
+            st = os.stat(p)
+            shutil.copyfile(p, store)
+            os.utime(store, ns=(st.st_mtime_ns, st.st_mtime_ns))
+            os.remove(p)
+        os.symlink(store, p)
+        os.utime(p, (BASE_MTIME - 1000, BASE_MTIME - 1000), follow_symlinks=False)
+
     def stamp(self, rel, tick):
         t = self.base_mtime + tick * self.tick_step
         ns = int(round(t * 1_000_000_000))
@@ -335,7 +350,13 @@ class Project:
             for fn in files:
                 p = os.path.join(root, fn)
                 rel = os.path.relpath(p, self.dir)
-                st = os.lstat(p)
+                if rel.startswith("_store" + os.sep):
+                    continue  # data kept elsewhere and linked into the project: seen through its link
+                try:
+                    st = os.stat(p)  # a symbolic link shows the file it points to
+                except FileNotFoundError:
+                    snap[rel] = ("dangling-link", os.readlink(p))
+                    continue
                 with open(p, "rb") as f:
                     data = f.read()
                 if semantic_state and (rel == ".gwfconf.json" or (rel.startswith(".gwf/") and rel.endswith(".json"))):
